@@ -21,5 +21,8 @@ if "@@TOTALS@@" in s:
 else:
     s = re.sub(r"<!-- totals:begin -->.*?<!-- totals:end -->", lambda m: txt, s, flags=re.S)
 s = re.sub(r"\(@@NMUT@@ patches\)|\(\d+ patches\)", "(%d patches)" % nmut, s, count=1)
+import subprocess
+nfix = sum(1 for l in subprocess.run(["git", "-C", "/repo", "log", "--format=%s"], stdout=subprocess.PIPE, text=True).stdout.splitlines() if l.startswith("fix:"))
+s = re.sub(r"defects found \((@@NFIX@@|\d+) repaired", "defects found (%d repaired" % nfix, s, count=1)
 open(V + "DESIGN.md", "w").write(s)
 print("totals: %d/%d own, %d sibling-only, %d other, %d missed; %d mutants" % (own, n, sib, len(other), missed, nmut))
